@@ -59,6 +59,15 @@ class Arrays:
             sl = [slice(None)] * nd
             sl[-1] = slice(None, None, -1)
             arr = parent[tuple(sl)]
+        elif self.view == "interior":
+            # interior window of an allocation padded by one cell on EVERY axis (also the component axis): no two axes of
+            # the view can be merged without a copy
+            parent = ctx.array(name, tuple(n + 2 for n in shape))
+            arr = parent[tuple(slice(1, -1) for _ in shape)]
+        elif self.view == "rolled":
+            # first axis stored last in memory (component-last storage exposed through moveaxis; Fortran order in 2-D)
+            parent = ctx.array(name, tuple(shape[1:]) + (shape[0],)) if nd >= 2 else ctx.array(name, shape)
+            arr = np.moveaxis(parent, -1, 0) if nd >= 2 else parent
         else:
             raise ValueError(self.view)
         self.items[name] = dict(arr=arr, parent=parent, prior=arr.copy(), parent_prior=parent.copy(), role=role)
@@ -74,14 +83,17 @@ class Arrays:
                 ctx.same_array(f"input_unchanged:{name}", it["arr"], it["prior"])
             else:
                 ctx.eq_array(f"value:{name}", it["arr"], expected[name])
-            if it["parent"] is not it["arr"] and self.view == "strided":
+            if it["parent"] is not it["arr"] and self.view in ("strided", "interior"):
                 # parent cells outside the view keep their sentinels
                 mask = np.ones(it["parent"].shape, dtype=bool)
                 nd = it["parent"].ndim
-                sl = [slice(None)] * nd
-                sl[-1] = slice(1, None, 2)
-                if nd >= 2:
-                    sl[-2] = slice(1, -1)
+                if self.view == "interior":
+                    sl = [slice(1, -1)] * nd
+                else:
+                    sl = [slice(None)] * nd
+                    sl[-1] = slice(1, None, 2)
+                    if nd >= 2:
+                        sl[-2] = slice(1, -1)
                 mask[tuple(sl)] = False
                 cells = [tuple(int(v) for v in c) for c in np.argwhere(mask)]
                 ctx.eq_array(f"outside_view_unchanged:{name}", it["parent"], it["parent_prior"], cells=cells)
@@ -639,7 +651,7 @@ def main():
     missing = [g for g in gens if g not in CASES and g not in handled_elsewhere]
     if missing:
         chk.errors.append(f"generators without an oracle: {missing}")
-    views = ["contiguous", "strided"] if chk.quick else ["contiguous", "strided", "reversed"]
+    views = ["contiguous", "strided", "interior", "rolled"] if chk.quick else ["contiguous", "strided", "reversed", "interior", "rolled"]
     precisions = ["float64"] if chk.quick else ["float64", "float32"]
     n = 0
     for name in sorted(CASES):
@@ -654,6 +666,16 @@ def main():
                             continue
                         chk.add(kernel_case, real_t=rt, name=name, shape=list(sh), view=view, options=opt)
                         n += 1
+    # long thin grids: one axis beyond any plausible blocking / slab / size threshold (130 = 2*64+2 = 4*32+2), the others minimal
+    for name in sorted(CASES):
+        c = CASES[name]
+        ms = c["min_shape"]
+        for opt in (c["options"][:1] if chk.quick else c["options"]):
+            for ax in range(len(ms)):
+                sh = list(ms)
+                sh[ax] = 130
+                chk.add(kernel_case, real_t="float64", name=name, shape=sh, view="contiguous", options=opt)
+                n += 1
     # generator history: the same generator called earlier in the process with other options / another precision, and
     # its kernel used on another shape, must not influence the kernel generated later (per-process caches, shared closures)
     for name in sorted(CASES):
@@ -678,7 +700,7 @@ def main():
             chk.add(interpreter_vs_compiled, name=name, options=opt)
     chk.files = sorted({f"sopht/numeric/eulerian_grid_ops/{d}/{f}" for d in ("stencil_ops_2d", "stencil_ops_3d") for f in os.listdir(f"/repo/sopht/numeric/eulerian_grid_ops/{d}") if f.endswith(".py")})
     chk.bounds = [f"{len(CASES)} generators x option combinations; shapes from the minimal admissible size to +{1 if chk.quick else 2} per axis (non-cubic included)",
-                  f"views: {views}", f"precisions: {precisions}", "all array contents, prior output contents and scalar parameters are solver variables", "generator history: each generator is also exercised after earlier calls of itself with other options / the other precision / another shape in the same process",
+                  f"views: {views}", "long thin grids: each axis in turn 130 cells with the other axes minimal (size-gated blocking / slab code paths)", f"precisions: {precisions}", "all array contents, prior output contents and scalar parameters are solver variables", "generator history: each generator is also exercised after earlier calls of itself with other options / the other precision / another shape in the same process",
                   "(b) loop region of every kernel of every generator for ALL sizes (sizes are integer solver variables)", "translator validation of the IR interpreter against the compiled kernels (guard, not deciding)"]
     chk.outside = ["shapes beyond the enumerated ones (values/frame part)", "strides inside the generated C beyond the exercised views", "rounding"]
     chk.assumptions = ["exact real arithmetic", "Brinkmann kernels: penalty >= 0 and indicator >= 0 (denominator 1 + lambda*chi > 0)",
